@@ -302,7 +302,7 @@ def run_job(job):
             corpus.run_decoys(cs)
             corpus.run_numbers_decoy(scn)
         trace = os.path.join(wd, "trace.ndjson")
-        rec = Recorder(trace, len(cs["hosts"]))
+        rec = Recorder(trace, len(cs["hosts"]), cs=cs)
         if job.get("spec_only"):
             # design level only: exhaustive TLC run of NASimEnv (all clauses on every transition), no replay
             wd2 = os.path.join(wd, "explore")
